@@ -37,6 +37,9 @@ PADDING = [
 
 def run(ctx):
     rep = ctx.report
+    from ..typestate import check_functions as _rowbuffers
+    rep.rule('R12.9', 'output rows are assembled in a container that is created anew (or emptied) between two deliveries: no cell of one output row is carried into the next (row-buffer typestate)')
+    ctx.floor('row_buffer_generators', _rowbuffers(ctx, rep, 'R12.9', ctx.functions(['petl.transform', 'petl.util.base'])), 60)
     rep.explanation = (
         'Decides frame structure of the row- and field-level transforms: (R12.1) in each of the 27 one-to-one iterators '
         'every path through the data loop yields exactly one row, in loop order (no buffering, no early continue); '
